@@ -3,9 +3,13 @@ from gosym.check import Task
 
 ID = 'C07'
 PKG = 'pkg/frame'
-HARNESS_FILES = ['pkg/frame/zz_verif_common.go', 'pkg/frame/zz_verif_c07.go']
+HARNESS_FILES = ['pkg/frame/zz_verif_common.go', 'pkg/frame/zz_verif_c07.go', 'pkg/frame/zz_verif_dialect.go',
+                 'pkg/frame/zz_verif_c02.go', 'pkg/frame/zz_verif_c05.go', 'pkg/frame/zz_verif_c06.go',
+                 'pkg/frame/zz_verif_export.go', 'pkg/frame/zz_verif_msgs.go', 'pkg/streamwriter/zz_verif_c09.go']
+CLOCK_PKGS = ['pkg/streamwriter']
+ROOTS = ['verifHarness_C07']
 ALLOW = 'bufio,io,encoding/binary,errors,bytes'
-INITS = 'io,bufio,errors'
+INITS = 'io,bufio,errors,github.com/bluenviron/gomavlib/v3/pkg/message'
 OPTIONS = {}
 ANCHOR_FILES = ['/repo/pkg/frame/reader.go', '/repo/pkg/streamwriter/writer.go', '/repo/pkg/frame/writer.go']
 
@@ -13,18 +17,21 @@ ANCHOR_FILES = ['/repo/pkg/frame/reader.go', '/repo/pkg/streamwriter/writer.go',
 def tasks(tier):
     ts = [Task('verifHarness_C07_window', [n]) for n in ((0, 1, 3) if tier == 'quick' else (0, 1, 2, 3, 8, 64, 255))]
     ts += [Task('verifHarness_C07_history', [k]) for k in ((2,) if tier == 'quick' else (2, 3, 4))]
+    ts.append(Task('verifHarness_C07_T', [], {'x25_uf': True, 'bv_as_int_fallback': True, 'inc_timeout_ms': 300, 'timeout_ms': 5000},
+                   pkg='pkg/streamwriter'))
     return ts
 
 
 def required_reach(tier):
-    return ['C07/W', 'C07/H']
+    return ['C07/W', 'C07/H', 'C07/T']
 
 
 def bounds(tier):
     return {'window_step': 'newest-accepted timestamp and incoming timestamp: every pair in [0,2^48)^2 (one inductive step; '
                            'histories of any length follow by induction on the invariant cur = newest accepted, 0 = none)',
             'history_crosscheck': 'fresh reader, %s frames with arbitrary timestamps' % ('2' if tier == 'quick' else '2..4'),
-            'payload_lengths': [0, 1, 3] if tier == 'quick' else [0, 1, 2, 3, 8, 64, 255]}
+            'payload_lengths': [0, 1, 3] if tier == 'quick' else [0, 1, 2, 3, 8, 64, 255],
+            'writer_timestamps': 'two consecutive streamwriter writes, clock readings d1 <= d2 arbitrary in [0, 2^48 * 10 us) (years 2015..2104): ts_i = d_i / 10000 and ts2 >= ts1 (udiv monotonicity decided by cvc5 --solve-bv-as-int=sum)'}
 
 
 OUTSIDE = ['wall clock stepping backwards', 'timestamps beyond 48 bits (years >= 2104)',
